@@ -17,7 +17,9 @@ STUBS = ["scripted Packetizer I/O; null key-exchange engine; logging ServerInter
 ASSUMPTIONS = ["state: authenticated session with one open channel, our KEXINIT just sent (renegotiate_keys / threshold), the peer's "
                "KEXINIT still in flight; one connection-layer message (type 80..100, well-formed body with symbolic integers/flags, names "
                "from tables) arrives first, then the peer's KEXINIT, the engine message and NEWKEYS",
-               "only the transport thread is exercised here; user threads sending during the exchange (schedules) are not covered"]
+               "user threads: one _send_user_message call against other threads that start / finish a re-exchange at any point where "
+               "clear_to_send_lock is not held (lock-granularity schedules chosen by the solver); interleavings inside a locked region and "
+               "Channel-level callers are not covered"]
 EXPLANATION = "Message type, channel ids, flags and integers are solver variables; what is sent between our KEXINIT and our NEWKEYS is observed."
 
 
@@ -73,5 +75,165 @@ def inflight_case(server):
                 {"ptype": "80..100", "role": "server" if server else "client"}, max_paths=100000)
 
 
+class _EnvLock:
+    """clear_to_send_lock as seen by the user thread: whenever the user thread does NOT hold it, the other threads may
+    move (the environment's turn comes at every lock/event/clock operation of the code under test)"""
+
+    def __init__(self, env):
+        self.env, self.held = env, False
+
+    def acquire(self, *a):
+        self.env.turn("lock.acquire")
+        self.held = True
+        return True
+
+    def release(self):
+        self.held = False
+
+    def __enter__(self):
+        self.acquire()
+
+    def __exit__(self, *a):
+        self.release()
+
+
+class _EnvEvent:
+    def __init__(self, env):
+        self.env, self.flag = env, True
+
+    def is_set(self):
+        self.env.turn("event.is_set")
+        return self.flag
+
+    isSet = is_set
+
+    def wait(self, timeout=None):
+        self.env.turn("event.wait")
+        if not self.flag:
+            self.env.waits += 1
+            self.env.clock.now = self.env.clock.now + 1          # an unsuccessful wait takes time
+        return self.flag
+
+    def set(self):
+        self.flag = True
+
+    def clear(self):
+        self.flag = False
+
+
+class _Env:
+    """the transport thread / another user thread: may start a re-exchange (exactly what the real _send_kex_init does:
+    clear the event under the lock, then write KEXINIT) and later finish it (NEWKEYS, then set the event under the lock)"""
+
+    def __init__(self, ctx, t, clock, max_actions):
+        self.ctx, self.t, self.clock, self.n, self.waits, self.acting = ctx, t, clock, 0, 0, False
+        self.in_kex, self.actions, self.max_actions = False, 0, max_actions
+        self.trace = []
+
+    def turn(self, where):
+        t = self.t
+        if self.acting or t.clear_to_send_lock.held:
+            return                                      # we hold the lock (or this is the environment itself running)
+        self.n += 1
+        if self.n > 24:
+            self.ctx.cut("more than 24 scheduling points in one _send_user_message")
+        if self.waits >= 4 and self.in_kex:
+            act = "finish-the-exchange"                 # fairness: an exchange in progress ends (or the peer is gone: C13)
+        elif self.actions >= self.max_actions:
+            return
+        else:
+            opts = ["nothing"] + (["finish-the-exchange"] if self.in_kex else ["start-a-re-exchange"])
+            act = self.ctx.choice("other-threads@%d(%s)" % (self.n, where), opts)
+        if act == "nothing":
+            return
+        self.actions += 1
+        self.trace.append((where, act))
+        self.acting = True
+        try:
+            from paramiko.message import Message
+            from paramiko.common import cMSG_NEWKEYS
+            if act == "start-a-re-exchange":
+                t._send_kex_init()                      # the real one: clears clear_to_send under the lock, writes KEXINIT
+                self.in_kex = True
+            else:
+                m = Message()
+                m.add_byte(cMSG_NEWKEYS)
+                t._send_message(m)                      # our NEWKEYS leaves (what the engine's _activate_outbound does)
+                t.clear_to_send_lock.acquire()          # ... and _parse_newkeys re-opens the gate
+                try:
+                    t.clear_to_send.set()
+                finally:
+                    t.clear_to_send_lock.release()
+                self.in_kex = False
+        finally:
+            self.acting = False
+
+
+def gating_case(tier):
+    """user threads: the real Transport._send_user_message against a re-exchange started/finished by other threads at
+    any point where clear_to_send_lock is not held"""
+    def fn(ctx):
+        import paramiko.transport as T
+        from paramiko.common import MSG_KEXINIT, MSG_NEWKEYS, cMSG_CHANNEL_DATA
+        from paramiko.message import Message
+        from paramiko.ssh_exception import SSHException
+        from props.C25 import _Clock
+        from sx.stubs import patched
+        t = L.make_transport(False, L.Script([]))
+        t.initial_kex_done = True
+        t.clear_to_send_timeout = 3
+        clock = _Clock(ctx)
+        env = _Env(ctx, t, clock, 2 if tier == "quick" else 3)
+        t.clear_to_send_lock = _EnvLock(env)
+        t.clear_to_send = _EnvEvent(env)
+        if ctx.flag("a-re-exchange-is-already-in-progress"):
+            env.turn = lambda where: None
+            t._send_kex_init()
+            del env.turn
+            env.in_kex = True
+        alive = ctx.flag("connection-still-alive")
+        t.active = alive
+        k0 = len(t.sent)
+        m = Message()
+        m.add_byte(cMSG_CHANNEL_DATA)
+        m.add_int(0)
+        m.add_string(b"x")
+        timemod = type("T", (), {"time": staticmethod(clock.time)})
+        outcome = "returned"
+        with patched([(T, "time", timemod)]):
+            try:
+                t._send_user_message(m)
+            except SSHException as e:
+                outcome = "timed-out" if "negotiation" in str(e) else "error"
+        types = L.sent_types(t, k0)
+        in_kex, leaked = env.in_kex and False, False
+        state = bool(ctx.inputs.get("a-re-exchange-is-already-in-progress")) if not ctx.symbolic else None
+        # replay the wire: are we between our KEXINIT and our NEWKEYS when the user message leaves?
+        between = bool(k0 and MSG_KEXINIT in L.sent_types(t, 0)[:k0] and MSG_NEWKEYS not in L.sent_types(t, 0)[:k0])
+        sent_user = 0
+        for x in types:
+            if x == MSG_KEXINIT:
+                between = True
+            elif x == MSG_NEWKEYS:
+                between = False
+            elif x == 94:
+                sent_user += 1
+                leaked = leaked or between
+        ctx.prove(not leaked, "user-message-never-leaves-between-our-KEXINIT-and-our-NEWKEYS")
+        ctx.prove(sent_user <= 1, "user-message-sent-at-most-once")
+        if outcome == "returned" and alive:
+            ctx.prove(sent_user == 1, "queued-user-message-is-delivered-once-the-exchange-is-over")
+        if outcome == "timed-out":
+            ctx.prove(sent_user == 0, "timed-out=>nothing-sent")
+            ctx.reach("gave-up-after-clear_to_send_timeout")
+        ctx.prove(not t.clear_to_send_lock.held, "clear_to_send_lock-released-on-every-way-out")
+    return Case("user-thread-gating", fn,
+                ["user-message-never-leaves-between-our-KEXINIT-and-our-NEWKEYS", "queued-user-message-is-delivered-once-the-exchange-is-over",
+                 "clear_to_send_lock-released-on-every-way-out"],
+                {"actions of other threads": "<=2 quick / <=3 thorough (start / finish a re-exchange), at any lock/event/clock operation "
+                 "at which the user thread does not hold clear_to_send_lock", "clock": "symbolic steps 0..5 per reading, timeout 3"},
+                max_paths=200000, wall_s=900)
+
+
 def cases(tier):
-    return [inflight_case(True), inflight_case(False)]
+    return [inflight_case(True), inflight_case(False), gating_case(tier)]
